@@ -292,6 +292,31 @@ def lookup_api_cases(ctx: Ctx):
                 ctx.report(f"missing prefix {pre!r} resolved to data", {"kind": "lookup", "prefix": pre})
         except HashError:
             pass
+    # a prefix that matches a persisted file AND a not yet persisted one (-new) is ambiguous too; a prefix that matches exactly one of them resolves to it
+    tmp2 = Path(tempfile.mkdtemp(dir=str(ctx.tmp)))
+    st2 = DiscStorage(tmp2)
+    pairs = [(b"old data %d" % i, b"new data %d" % i) for i in range(40)]
+    names = []
+    for a, b in pairs:
+        ha, hb = hashlib.sha256(a).hexdigest(), hashlib.sha256(b).hexdigest()
+        st2.save(ha + ".txt", a)
+        st2.save(hb + "-new.txt", b)
+        names += [(ha, ha + ".txt", a), (hb, hb + "-new.txt", b)]
+    for plen in (1, 2, 3):
+        for hsh, fname, data in names:
+            pre = hsh[:plen]
+            matches = [x for x in names if x[1].startswith(pre)]
+            n += 1
+            ctx.count(("lookup-new", pre, fname), len(matches) != 1)
+            try:
+                got = st2.read(pre + "*.txt")
+                if len(matches) != 1:
+                    ctx.report(f"ambiguous prefix {pre!r} ({[m[1][:10] + '...' + m[1][64:] for m in matches]}) resolved to data instead of HashError", {"kind": "lookup", "prefix": pre})
+                elif got != matches[0][2]:
+                    ctx.report(f"prefix {pre!r} resolved to other data", {"kind": "lookup", "prefix": pre})
+            except HashError:
+                if len(matches) == 1:
+                    ctx.report(f"unique prefix {pre!r} raised HashError", {"kind": "lookup", "prefix": pre})
     ctx.coverage["oracle"]["lookup_api_cases"] = n
 
 
